@@ -1084,7 +1084,11 @@ class PDFType3Font(PDFSimpleFont):
         PDFSimpleFont.__init__(self, descriptor, widths, spec)
         self.matrix = cast(Matrix, tuple(list_value(spec.get("FontMatrix"))))
         (_, self.descent, _, self.ascent) = self.bbox
-        (self.hscale, self.vscale) = apply_matrix_norm(self.matrix, (1, 1))
+        # A glyph-space displacement (w, 0) becomes (w * a, w * b) in text space
+        # and (0, h) becomes (h * c, h * d): the horizontal scale is a, the
+        # vertical scale is d (the skew terms b and c do not add to them).
+        (self.hscale, _) = apply_matrix_norm(self.matrix, (1, 0))
+        (_, self.vscale) = apply_matrix_norm(self.matrix, (0, 1))
 
     def __repr__(self) -> str:
         return "<PDFType3Font>"
